@@ -38,7 +38,7 @@ var c08Metrics = sync.OnceValue(func() *metricstorage.MetricStorage {
 	return metricstorage.NewMetricStorage(context.Background(), "verif_", true, log.NewNop())
 })
 
-var cmGVR = schema.GroupVersionResource{Group: "", Version: "v1", Resource: "configmaps"}
+var g4CmGVR = schema.GroupVersionResource{Group: "", Version: "v1", Resource: "configmaps"}
 
 type c08Env struct {
 	c       *Case
@@ -49,7 +49,7 @@ type c08Env struct {
 	mu      sync.Mutex
 	events  []kemtypes.KubeEvent
 	ids     *Interner
-	cks     ckInterner
+	cks     g4CkInterner
 	states  map[string]map[string]any // name -> last delivered state
 	hide    string                    // name of the marker object (cluster mode), never shown
 	loadErr bool                      // createSharedInformer failed (the filter fails on a listed object)
@@ -61,7 +61,7 @@ func (e *c08Env) takeEvents() []kemtypes.KubeEvent {
 	defer e.mu.Unlock()
 	var ev []kemtypes.KubeEvent
 	for _, x := range e.events {
-		if e.hide != "" && len(x.Objects) == 1 && nameOf(x.Objects[0].Metadata.ResourceId) == e.hide {
+		if e.hide != "" && len(x.Objects) == 1 && g4NameOf(x.Objects[0].Metadata.ResourceId) == e.hide {
 			continue
 		}
 		ev = append(ev, x)
@@ -73,18 +73,18 @@ func (e *c08Env) takeEvents() []kemtypes.KubeEvent {
 func (e *c08Env) cached() []kemtypes.ObjectAndFilterResult {
 	var res []kemtypes.ObjectAndFilterResult
 	for _, o := range e.inf.CachedObjects() {
-		if e.hide != "" && nameOf(o.Metadata.ResourceId) == e.hide {
+		if e.hide != "" && g4NameOf(o.Metadata.ResourceId) == e.hide {
 			continue
 		}
 		res = append(res, o)
 	}
 	sort.Slice(res, func(i, j int) bool {
-		return e.ids.Id(nameOf(res[i].Metadata.ResourceId)) < e.ids.Id(nameOf(res[j].Metadata.ResourceId))
+		return e.ids.Id(g4NameOf(res[i].Metadata.ResourceId)) < e.ids.Id(g4NameOf(res[j].Metadata.ResourceId))
 	})
 	return res
 }
 
-func frText(o *kemtypes.ObjectAndFilterResult) string {
+func g4FrText(o *kemtypes.ObjectAndFilterResult) string {
 	if o.Metadata.JqFilter == "" {
 		return "-"
 	}
@@ -94,9 +94,9 @@ func frText(o *kemtypes.ObjectAndFilterResult) string {
 		if err := json.Unmarshal([]byte(s), &v); err != nil {
 			return "not-json-text"
 		}
-		return canonJSON(v)
+		return g4CanonJSON(v)
 	}
-	return canonJSON(o.FilterResult)
+	return g4CanonJSON(o.FilterResult)
 }
 
 func (e *c08Env) entry(o *kemtypes.ObjectAndFilterResult) string {
@@ -105,7 +105,7 @@ func (e *c08Env) entry(o *kemtypes.ObjectAndFilterResult) string {
 	if o.Object != nil {
 		full = 1
 	}
-	return fmt.Sprintf("%d@%s:fr=%s:obj=%d", e.ids.Id(name), e.cks.id(o.Metadata.Checksum), frText(o), full)
+	return fmt.Sprintf("%d@%s:fr=%s:obj=%d", e.ids.Id(name), e.cks.id(o.Metadata.Checksum), g4FrText(o), full)
 }
 
 func (e *c08Env) cacheText() string {
@@ -117,7 +117,7 @@ func (e *c08Env) cacheText() string {
 	return joinStrs(ps)
 }
 
-func nameOf(resourceId string) string { return resourceId[strings.LastIndex(resourceId, "/")+1:] }
+func g4NameOf(resourceId string) string { return resourceId[strings.LastIndex(resourceId, "/")+1:] }
 
 // snapTokens renders the snapshot for the `oracle snap` line: id~filterResult~object.
 func (e *c08Env) snapTokens() string {
@@ -126,14 +126,14 @@ func (e *c08Env) snapTokens() string {
 	for i := range objs {
 		o := "-"
 		if objs[i].Object != nil {
-			o = canonJSON(objs[i].Object.Object)
+			o = g4CanonJSON(objs[i].Object.Object)
 		}
-		ps = append(ps, fmt.Sprintf("%d~%s~%s", e.ids.Id(nameOf(objs[i].Metadata.ResourceId)), frText(&objs[i]), o))
+		ps = append(ps, fmt.Sprintf("%d~%s~%s", e.ids.Id(g4NameOf(objs[i].Metadata.ResourceId)), g4FrText(&objs[i]), o))
 	}
 	return strings.Join(ps, " ")
 }
 
-func typesArg(ts []kemtypes.WatchEventType) string {
+func g4TypesArg(ts []kemtypes.WatchEventType) string {
 	var ss []string
 	for _, t := range ts {
 		ss = append(ss, string(t))
@@ -147,7 +147,7 @@ func c08Setup(c *Case, types []kemtypes.WatchEventType, useDefault bool, f *jqF,
 	e := &c08Env{c: c, ns: fmt.Sprintf("c08-%d", c.Idx), ids: NewInterner(), states: map[string]map[string]any{}}
 	e.fc = fake.NewFakeCluster(fake.ClusterVersionV121)
 	cfg := &kem.MonitorConfig{ApiVersion: "v1", Kind: "ConfigMap", KeepFullObjectsInMemory: keep}
-	targ := typesArg(types)
+	targ := g4TypesArg(types)
 	if useDefault {
 		cfg.WithEventTypes(nil)
 		targ = "default"
@@ -156,7 +156,7 @@ func c08Setup(c *Case, types []kemtypes.WatchEventType, useDefault bool, f *jqF,
 	}
 	jqText, ast := "-", "-"
 	if f != nil {
-		jqText, ast = f.text(), canonJSON(f.ast())
+		jqText, ast = f.text(), g4CanonJSON(f.ast())
 		cfg.JqFilter = jqText
 	}
 	e.jq = cfg.JqFilter
@@ -171,28 +171,28 @@ func c08Setup(c *Case, types []kemtypes.WatchEventType, useDefault bool, f *jqF,
 	})
 	c.Op(fmt.Sprintf("cfg types=%s keep=%d jq=%s ast=%s", targ, k, jqText, ast), "ok")
 	if useDefault {
-		got := typesArg(cfg.EventTypes)
+		got := g4TypesArg(cfg.EventTypes)
 		c.Op("defaults", got)
 		c.Oracle("defaults " + got)
 	}
 	// initial objects: through the dynamic tracker, then read back (the state the informer lists)
 	var loadArgs []string
 	for _, o := range initial {
-		_, err := e.fc.Client.Dynamic().Resource(cmGVR).Namespace(e.ns).Create(context.TODO(), &unstructured.Unstructured{Object: deepCopyJSON(o)}, metav1.CreateOptions{})
+		_, err := e.fc.Client.Dynamic().Resource(g4CmGVR).Namespace(e.ns).Create(context.TODO(), &unstructured.Unstructured{Object: g4DeepCopyJSON(o)}, metav1.CreateOptions{})
 		if err != nil {
 			c.Op("harness-create-failed", err.Error())
 		}
 	}
 	if len(initial) > 0 {
-		lst, err := e.fc.Client.Dynamic().Resource(cmGVR).Namespace(e.ns).List(context.TODO(), metav1.ListOptions{})
+		lst, err := e.fc.Client.Dynamic().Resource(g4CmGVR).Namespace(e.ns).List(context.TODO(), metav1.ListOptions{})
 		if err != nil {
 			c.Op("harness-list-failed", err.Error())
 		} else {
 			sort.Slice(lst.Items, func(i, j int) bool { return lst.Items[i].GetName() < lst.Items[j].GetName() })
 			for i := range lst.Items {
-				st := deepCopyJSON(lst.Items[i].Object)
+				st := g4DeepCopyJSON(lst.Items[i].Object)
 				e.states[lst.Items[i].GetName()] = st
-				loadArgs = append(loadArgs, fmt.Sprintf("%d=%s", e.ids.Id(lst.Items[i].GetName()), canonJSON(st)))
+				loadArgs = append(loadArgs, fmt.Sprintf("%d=%s", e.ids.Id(lst.Items[i].GetName()), g4CanonJSON(st)))
 			}
 		}
 	}
@@ -215,19 +215,19 @@ func (e *c08Env) jqProbe(obj map[string]any) string {
 	if e.jq == "" {
 		return ""
 	}
-	res, err := kem.VerifApplyFilterC08(e.jq, &unstructured.Unstructured{Object: deepCopyJSON(obj)})
+	res, err := kem.VerifApplyFilterC08(e.jq, &unstructured.Unstructured{Object: g4DeepCopyJSON(obj)})
 	ans := "err"
 	if err == nil {
-		ans = "fr=" + frText(res)
+		ans = "fr=" + g4FrText(res)
 	}
-	e.c.Op("jq "+canonJSON(obj), ans)
-	e.c.Note("jq-result:" + resultClass(strings.TrimPrefix(ans, "fr=")))
+	e.c.Op("jq "+g4CanonJSON(obj), ans)
+	e.c.Note("jq-result:" + g4ResultClass(strings.TrimPrefix(ans, "fr=")))
 	return ans
 }
 
 // deliver hands one change to the real handleWatchEvent and records what the informer did.
 func (e *c08Env) deliver(t kemtypes.WatchEventType, name string, obj map[string]any) {
-	u := &unstructured.Unstructured{Object: deepCopyJSON(obj)}
+	u := &unstructured.Unstructured{Object: g4DeepCopyJSON(obj)}
 	e.takeEvents()
 	switch t {
 	case kemtypes.WatchEventAdded:
@@ -245,12 +245,12 @@ func (e *c08Env) record(t kemtypes.WatchEventType, name string, obj map[string]a
 	if len(evs) == 1 && len(evs[0].Objects) == 1 && len(evs[0].WatchEvents) == 1 && evs[0].Type == kemtypes.TypeEvent {
 		fired = string(evs[0].WatchEvents[0]) + ":" + e.entry(&evs[0].Objects[0])
 		got = 1
-		fr = frText(&evs[0].Objects[0])
+		fr = g4FrText(&evs[0].Objects[0])
 	} else if len(evs) != 0 {
 		fired = fmt.Sprintf("unexpected-%d-events", len(evs))
 		got = len(evs)
 	}
-	e.c.Op(fmt.Sprintf("ev %s %d %s", t, e.ids.Id(name), canonJSON(obj)), fmt.Sprintf("fired=%s cache=%s", fired, e.cacheText()))
+	e.c.Op(fmt.Sprintf("ev %s %d %s", t, e.ids.Id(name), g4CanonJSON(obj)), fmt.Sprintf("fired=%s cache=%s", fired, e.cacheText()))
 	e.c.Oracle(fmt.Sprintf("fired got=%d fr=%s", got, fr))
 	e.c.Oracle(strings.TrimSpace("snap " + e.snapTokens()))
 	if t == kemtypes.WatchEventDeleted {
@@ -260,7 +260,7 @@ func (e *c08Env) record(t kemtypes.WatchEventType, name string, obj map[string]a
 	}
 	e.c.Note("ev:" + string(t))
 	if e.jq != "" {
-		if _, err := kem.VerifApplyFilterC08(e.jq, &unstructured.Unstructured{Object: deepCopyJSON(obj)}); err != nil {
+		if _, err := kem.VerifApplyFilterC08(e.jq, &unstructured.Unstructured{Object: g4DeepCopyJSON(obj)}); err != nil {
 			e.c.Note("filter-fails-on-state:" + string(t)) // the change is dropped as a whole (see notes/C08.md)
 		}
 	}
@@ -269,11 +269,11 @@ func (e *c08Env) record(t kemtypes.WatchEventType, name string, obj map[string]a
 	}
 }
 
-var allTypes = []kemtypes.WatchEventType{kemtypes.WatchEventAdded, kemtypes.WatchEventModified, kemtypes.WatchEventDeleted}
+var g4AllTypes = []kemtypes.WatchEventType{kemtypes.WatchEventAdded, kemtypes.WatchEventModified, kemtypes.WatchEventDeleted}
 
-func subsetTypes(mask int) []kemtypes.WatchEventType {
+func g4SubsetTypes(mask int) []kemtypes.WatchEventType {
 	ts := []kemtypes.WatchEventType{}
-	for i, t := range allTypes {
+	for i, t := range g4AllTypes {
 		if mask&(1<<i) != 0 {
 			ts = append(ts, t)
 		}
@@ -283,7 +283,7 @@ func subsetTypes(mask int) []kemtypes.WatchEventType {
 
 // mutate returns a changed copy of obj: inside the filter's paths, outside them, or anywhere.
 func c08Mutate(rng *Rng, obj map[string]any, f *jqF, where string) map[string]any {
-	o := deepCopyJSON(obj)
+	o := g4DeepCopyJSON(obj)
 	used := map[string]bool{}
 	if f != nil {
 		f.paths(used)
@@ -301,21 +301,21 @@ func c08Mutate(rng *Rng, obj map[string]any, f *jqF, where string) map[string]an
 		return false
 	}
 	var cand [][]string
-	for _, l := range objLeaves {
+	for _, l := range g4ObjLeaves {
 		if where == "any" || (where == "inside") == touches(l) {
 			cand = append(cand, l)
 		}
 	}
 	if len(cand) == 0 {
-		cand = objLeaves
+		cand = g4ObjLeaves
 	}
 	l := PickOne(rng, cand)
 	if rng.Chance(15) {
-		delPath(o, l)
+		g4DelPath(o, l)
 	} else if l[0] == "metadata" {
-		setPath(o, l, PickOne(rng, []string{"u", "v", "w"}))
+		g4SetPath(o, l, PickOne(rng, []string{"u", "v", "w"}))
 	} else {
-		setPath(o, l, genLeaf(rng))
+		g4SetPath(o, l, g4GenLeaf(rng))
 	}
 	return o
 }
@@ -324,13 +324,13 @@ func c08Mutate(rng *Rng, obj map[string]any, f *jqF, where string) map[string]an
 func c08History(e *c08Env, rng *Rng, f *jqF, names []string, steps int) (changes int) {
 	probed := map[string]bool{}
 	probe := func(o map[string]any) {
-		k := canonJSON(o)
+		k := g4CanonJSON(o)
 		if !probed[k] {
 			probed[k] = true
 			e.jqProbe(o)
 		}
 	}
-	for _, n := range sortedKeys(e.states) {
+	for _, n := range g4SortedKeys(e.states) {
 		probe(e.states[n])
 		// informer start: every listed object is delivered as Added once more
 		if rng.Chance(70) {
@@ -342,7 +342,7 @@ func c08History(e *c08Env, rng *Rng, f *jqF, names []string, steps int) (changes
 		name := PickOne(rng, names)
 		cur, live := e.states[name]
 		if !live {
-			o := genObject(rng, e.ns, name)
+			o := g4GenObject(rng, e.ns, name)
 			probe(o)
 			t := kemtypes.WatchEventAdded
 			if rng.Chance(10) {
@@ -400,12 +400,12 @@ func c08History(e *c08Env, rng *Rng, f *jqF, names []string, steps int) (changes
 	return changes
 }
 
-func lit(v any) *jqF               { return &jqF{Kind: "lit", Lit: v} }
-func path(ks ...string) *jqF       { return &jqF{Kind: "path", Path: ks} }
-func arrF(items ...*jqF) *jqF      { return &jqF{Kind: "arr", Items: items} }
-func altF(a, b *jqF) *jqF          { return &jqF{Kind: "alt", A: a, B: b} }
-func objF(fs ...jqField) *jqF      { return &jqF{Kind: "obj", Fields: fs} }
-func fld(k string, f *jqF) jqField { return jqField{k, f} }
+func g4Lit(v any) *jqF               { return &jqF{Kind: "lit", Lit: v} }
+func g4Path(ks ...string) *jqF       { return &jqF{Kind: "path", Path: ks} }
+func g4ArrF(items ...*jqF) *jqF      { return &jqF{Kind: "arr", Items: items} }
+func g4AltF(a, b *jqF) *jqF          { return &jqF{Kind: "alt", A: a, B: b} }
+func g4ObjF(fs ...jqField) *jqF      { return &jqF{Kind: "obj", Fields: fs} }
+func g4Fld(k string, f *jqF) jqField { return jqField{k, f} }
 
 func c08Obj(ns, name string, replicas int64, a any, x int64) map[string]any {
 	return map[string]any{"apiVersion": "v1", "kind": "ConfigMap",
@@ -422,10 +422,10 @@ func runC08(r *Run) {
 		desc string
 		f    *jqF
 	}{
-		{"scalar-valued filter .spec.replicas, 1 -> 2", path("spec", "replicas")},
-		{"array-valued filter [.spec.replicas,.spec.a]", arrF(path("spec", "replicas"), path("spec", "a"))},
-		{"null-valued filter .nope // scalar alternative", altF(path("nope"), path("spec", "replicas"))},
-		{"object-valued filter {r:.spec.replicas}", objF(fld("r", path("spec", "replicas")))},
+		{"scalar-valued filter .spec.replicas, 1 -> 2", g4Path("spec", "replicas")},
+		{"array-valued filter [.spec.replicas,.spec.a]", g4ArrF(g4Path("spec", "replicas"), g4Path("spec", "a"))},
+		{"null-valued filter .nope // scalar alternative", g4AltF(g4Path("nope"), g4Path("spec", "replicas"))},
+		{"object-valued filter {r:.spec.replicas}", g4ObjF(g4Fld("r", g4Path("spec", "replicas")))},
 		{"no filter: the whole object is the projection", nil},
 	}
 	for i, cc := range corpus {
@@ -435,15 +435,15 @@ func runC08(r *Run) {
 			c.Nontrivial = true
 			ns := fmt.Sprintf("c08-%d", c.Idx)
 			o1 := c08Obj(ns, "o1", 1, "x", 0)
-			e := c08Setup(c, allTypes, false, cc.f, true, []map[string]any{o1})
+			e := c08Setup(c, g4AllTypes, false, cc.f, true, []map[string]any{o1})
 			o1 = e.states["o1"]
 			e.jqProbe(o1)
 			e.deliver(kemtypes.WatchEventAdded, "o1", o1) // start replay: silent
-			o2 := deepCopyJSON(o1)
-			setPath(o2, []string{"status", "x"}, int64(7)) // outside the projection (unless no filter)
+			o2 := g4DeepCopyJSON(o1)
+			g4SetPath(o2, []string{"status", "x"}, int64(7)) // outside the projection (unless no filter)
 			e.deliver(kemtypes.WatchEventModified, "o1", o2)
-			o3 := deepCopyJSON(o2)
-			setPath(o3, []string{"spec", "replicas"}, int64(2)) // inside the projection
+			o3 := g4DeepCopyJSON(o2)
+			g4SetPath(o3, []string{"spec", "replicas"}, int64(2)) // inside the projection
 			e.jqProbe(o3)
 			e.deliver(kemtypes.WatchEventModified, "o1", o3)
 			e.deliver(kemtypes.WatchEventModified, "o1", o3) // resync: silent
@@ -454,12 +454,12 @@ func runC08(r *Run) {
 		c.Desc = "corpus: a filter that fails on the object (.spec.replicas.x on a number) — the change is ignored"
 		c.Nontrivial = true
 		ns := fmt.Sprintf("c08-%d", c.Idx)
-		e := c08Setup(c, allTypes, false, path("spec", "replicas", "x"), true, nil)
+		e := c08Setup(c, g4AllTypes, false, g4Path("spec", "replicas", "x"), true, nil)
 		o1 := c08Obj(ns, "o1", 1, "x", 0)
 		e.jqProbe(o1)
 		e.deliver(kemtypes.WatchEventAdded, "o1", o1)
-		o2 := deepCopyJSON(o1)
-		delPath(o2, []string{"spec", "replicas"})
+		o2 := g4DeepCopyJSON(o1)
+		g4DelPath(o2, []string{"spec", "replicas"})
 		e.jqProbe(o2)
 		e.deliver(kemtypes.WatchEventModified, "o1", o2)
 		e.deliver(kemtypes.WatchEventModified, "o1", o1)
@@ -470,7 +470,7 @@ func runC08(r *Run) {
 	r.Cases(100, n, 0, func(c *Case, rng *Rng) {
 		var f *jqF
 		if rng.Chance(85) {
-			f = genFilter(rng, 2)
+			f = g4GenFilter(rng, 2)
 		}
 		mask := rng.Intn(8)
 		useDefault := rng.Chance(10)
@@ -480,10 +480,10 @@ func runC08(r *Run) {
 		ns := fmt.Sprintf("c08-%d", c.Idx)
 		for _, nm := range names {
 			if rng.Chance(50) {
-				initial = append(initial, genObject(rng, ns, nm))
+				initial = append(initial, g4GenObject(rng, ns, nm))
 			}
 		}
-		e := c08Setup(c, subsetTypes(mask), useDefault, f, keep, initial)
+		e := c08Setup(c, g4SubsetTypes(mask), useDefault, f, keep, initial)
 		steps := rng.Range(3, 14)
 		ch := c08History(e, rng, f, names, steps)
 		c.Nontrivial = ch >= 3 && (c.notes["redeliver:resync"]+c.notes["redeliver:start-replay"]+c.notes["change:outside-filter-paths"] > 0)
@@ -508,8 +508,8 @@ func runC08(r *Run) {
 	if r.Thorough() {
 		// exhaustive small scope: 8 subsets x 6 filters x every history of length <= 4 over the alphabet
 		// {same state, change outside, change inside, delete, add} on one object
-		filters := []*jqF{nil, path("spec", "replicas"), arrF(path("spec", "replicas"), path("spec", "a")), path("nope"),
-			objF(fld("r", path("spec", "replicas"))), altF(path("spec", "a"), lit(int64(0)))}
+		filters := []*jqF{nil, g4Path("spec", "replicas"), g4ArrF(g4Path("spec", "replicas"), g4Path("spec", "a")), g4Path("nope"),
+			g4ObjF(g4Fld("r", g4Path("spec", "replicas"))), g4AltF(g4Path("spec", "a"), g4Lit(int64(0)))}
 		const A = 5
 		total := 0
 		for l, p := 1, A; l <= 4; l++ {
@@ -530,7 +530,7 @@ func runC08(r *Run) {
 			}
 			ns := fmt.Sprintf("c08-%d", c.Idx)
 			o := c08Obj(ns, "o1", 1, "x", 0)
-			e := c08Setup(c, subsetTypes(mask), false, f, true, []map[string]any{o})
+			e := c08Setup(c, g4SubsetTypes(mask), false, f, true, []map[string]any{o})
 			o = e.states["o1"]
 			e.jqProbe(o)
 			live := true
@@ -553,12 +553,12 @@ func runC08(r *Run) {
 				case a == 0:
 					e.deliver(kemtypes.WatchEventModified, "o1", o)
 				case a == 1:
-					o = deepCopyJSON(o)
-					setPath(o, []string{"status", "x"}, cnt)
+					o = g4DeepCopyJSON(o)
+					g4SetPath(o, []string{"status", "x"}, cnt)
 					e.deliver(kemtypes.WatchEventModified, "o1", o)
 				case a == 2:
-					o = deepCopyJSON(o)
-					setPath(o, []string{"spec", "replicas"}, cnt)
+					o = g4DeepCopyJSON(o)
+					g4SetPath(o, []string{"spec", "replicas"}, cnt)
 					e.deliver(kemtypes.WatchEventModified, "o1", o)
 				case a == 3:
 					e.deliver(kemtypes.WatchEventDeleted, "o1", o)
@@ -579,7 +579,7 @@ func runC08(r *Run) {
 func c08ClusterCase(c *Case, rng *Rng) {
 	var f *jqF
 	if rng.Chance(85) {
-		f = genFilter(rng, 2)
+		f = g4GenFilter(rng, 2)
 	}
 	mask := rng.Intn(8)
 	keep := rng.Bool()
@@ -588,10 +588,10 @@ func c08ClusterCase(c *Case, rng *Rng) {
 	var initial []map[string]any
 	for _, nm := range names {
 		if rng.Chance(60) {
-			initial = append(initial, genObject(rng, ns, nm))
+			initial = append(initial, g4GenObject(rng, ns, nm))
 		}
 	}
-	e := c08Setup(c, subsetTypes(mask), false, f, keep, initial)
+	e := c08Setup(c, g4SubsetTypes(mask), false, f, keep, initial)
 	e.hide = "zz"
 	if e.loadErr {
 		// the monitor would not be created at all (CreateInformers returns the error): nothing to start
@@ -602,7 +602,7 @@ func c08ClusterCase(c *Case, rng *Rng) {
 	defer cancel()
 	e.inf.Start(ctx)
 	time.Sleep(50 * time.Millisecond) // the fake watch starts after the list; changes in between would be lost
-	dyn := e.fc.Client.Dynamic().Resource(cmGVR).Namespace(ns)
+	dyn := e.fc.Client.Dynamic().Resource(g4CmGVR).Namespace(ns)
 	markerLive := false
 	barrier := func() bool {
 		if markerLive {
@@ -620,7 +620,7 @@ func c08ClusterCase(c *Case, rng *Rng) {
 		for time.Now().Before(deadline) {
 			present := false
 			for _, o := range e.inf.CachedObjects() {
-				if nameOf(o.Metadata.ResourceId) == "zz" {
+				if g4NameOf(o.Metadata.ResourceId) == "zz" {
 					present = true
 				}
 			}
@@ -637,10 +637,10 @@ func c08ClusterCase(c *Case, rng *Rng) {
 	}
 	// informer start: the listed objects were delivered as Added once more; this must have been silent
 	replay := e.takeEvents()
-	for _, n := range sortedKeys(e.states) {
+	for _, n := range g4SortedKeys(e.states) {
 		var mine []kemtypes.KubeEvent
 		for _, ev := range replay {
-			if len(ev.Objects) == 1 && nameOf(ev.Objects[0].Metadata.ResourceId) == n {
+			if len(ev.Objects) == 1 && g4NameOf(ev.Objects[0].Metadata.ResourceId) == n {
 				mine = append(mine, ev)
 			}
 		}
@@ -656,8 +656,8 @@ func c08ClusterCase(c *Case, rng *Rng) {
 		var next map[string]any
 		switch {
 		case !live:
-			t, next = kemtypes.WatchEventAdded, genObject(rng, ns, name)
-			if _, err := dyn.Create(context.TODO(), &unstructured.Unstructured{Object: deepCopyJSON(next)}, metav1.CreateOptions{}); err != nil {
+			t, next = kemtypes.WatchEventAdded, g4GenObject(rng, ns, name)
+			if _, err := dyn.Create(context.TODO(), &unstructured.Unstructured{Object: g4DeepCopyJSON(next)}, metav1.CreateOptions{}); err != nil {
 				c.Inconcl = "create failed: " + err.Error()
 				return
 			}
@@ -672,7 +672,7 @@ func c08ClusterCase(c *Case, rng *Rng) {
 			next = c08Mutate(rng, cur, f, where)
 			e.c.Note("change:" + where + "-filter-paths")
 			t = kemtypes.WatchEventModified
-			if _, err := dyn.Update(context.TODO(), &unstructured.Unstructured{Object: deepCopyJSON(next)}, metav1.UpdateOptions{}); err != nil {
+			if _, err := dyn.Update(context.TODO(), &unstructured.Unstructured{Object: g4DeepCopyJSON(next)}, metav1.UpdateOptions{}); err != nil {
 				c.Inconcl = "update failed: " + err.Error()
 				return
 			}
@@ -684,7 +684,7 @@ func c08ClusterCase(c *Case, rng *Rng) {
 				c.Inconcl = "get failed: " + err.Error()
 				return
 			}
-			next = deepCopyJSON(got.Object)
+			next = g4DeepCopyJSON(got.Object)
 		}
 		changes++
 		if !barrier() {
